@@ -7,7 +7,8 @@ orthogonality of `U`, order and sign of `s`) and returns them with the result, s
 meet the specification the theorems assume is detected at run time.
 
   fd_b / fd_step            generic `fdB` / `stepO` + `invRoots` + `invTail`
-  ds_b / ds_step            `dsB` / `dsFdUpdateRootO`
+  ds_b / ds_step            `dsB` / `dsFdUpdateRootG` (guards included; `dsFdUpdateRootO` evaluated next to it)
+  ds_reload                 `publicReload` (pack, cut `p[:dim]`, re-pad, unpack: known finding K5)
   sketchy_b / sketchy_step  `sketchyB` / `sketchyUpdateAxisO`
   oco_b / oco_step          `ocoB` / `ocoFdUpdateO`
   fd_run                    `fdRunO` over a list of supplied SVD outputs (must equal the chained `fd_step`s)
@@ -159,12 +160,29 @@ def ops : List Op := [
     let ⟨d, k, cfg, st, G⟩ ← dsArgs j
     let o ← getSvd j d
     let p ← getF j "p"
+    let g : Guards Float := { lo := ← getF j "g_lo", hi := ← getF j "g_hi", thr := ← getF j "g_thr" }
     let B := (dsB Float.sqrt cfg st G)
-    let out := dsFdUpdateRoot (fun _ => o) Float.sqrt (powNeg p) cfg st G
+    -- the code-shaped step WITH its guards; the unguarded one is evaluated next to it (they are equal under
+    -- `SvdSpec` by `ds_guards_are_identities`; at Float the renormalisation may move the last bit)
+    let out := dsFdUpdateRootG Float.sqrt (powNeg p) g cfg st o
+    let ung := dsFdUpdateRoot (fun _ => o) Float.sqrt (powNeg p) cfg st G
+    let gd := maxAbs ((entries fun i a => out.st.V i a - ung.st.V i a) ++
+      (listOfVec fun a => out.st.l a - ung.st.l a) ++ (listOfVec fun a => out.inverted a - ung.inverted a))
     pure (obj (stateFields out.st ++ [
       ("rho", floatToJson (rho k o)), ("inv", vecJson out.inverted), ("const", floatToJson out.const),
       ("has_zeros", Json.bool out.hasZeros), ("ridge", floatToJson (dsRidge cfg st.l)),
+      ("guard_diff", floatToJson gd), ("guard_flags_equal", Json.bool (out.hasZeros == ung.hasZeros)),
       ("svd", svdResiduals B o)]))),
+  ("ds_reload", fun j => do
+    let D ← getNat j "d"
+    let k ← getNat j "k"
+    let dim ← getNat j "dim"
+    let st ← getState j D k
+    let inv ← getVec j "inv" k
+    let c ← getF j "const"
+    let f ← getF j "flag"
+    let r := publicReload dim st inv c f
+    pure (obj [("V", matJson r.V), ("l", vecJson r.l), ("t", floatToJson r.t)])),
   ("sketchy_b", fun j => do
     let ⟨_, _, _, β, st, G⟩ ← skArgs j
     pure (obj [("B", matJson (sketchyB Float.sqrt β st G))])),
